@@ -414,11 +414,19 @@ void jv_wk_params_set_harray(void* p, void* harray) { static_cast<wk::Params*>(p
 void jv_wk_sk_set_l(void* sk, int l) { static_cast<wk::SecretKey*>(sk)->l = l; }
 void jv_wk_sk_set_bidx(void* sk, int i, uint32_t idx) { static_cast<wk::SecretKey*>(sk)->b[i].idx = idx; }
 
-void jv_apair_set(void* arr, size_t i, const void* g1a, const void* g2a) {
+/* Pair records are laid out the way the caller of that view declares them: a C (or Go) caller allocates arrays of the C mirror
+   structs of bls12_381.h, a C++ caller arrays of bls::AffinePair / bls::PreparedPair. */
+size_t jv_pair_size(int view, int prepared) {
+    if (view == 0) return prepared ? sizeof(embedded_pairing_bls12_381_prepared_pair_t) : sizeof(embedded_pairing_bls12_381_affine_pair_t);
+    return prepared ? sizeof(bls::PreparedPair) : sizeof(bls::AffinePair);
+}
+void jv_apair_set(int view, void* arr, size_t i, const void* g1a, const void* g2a) {
+    if (view == 0) { embedded_pairing_bls12_381_affine_pair_t* a = static_cast<embedded_pairing_bls12_381_affine_pair_t*>(arr); a[i].g1 = (embedded_pairing_bls12_381_g1affine_t*) g1a; a[i].g2 = (embedded_pairing_bls12_381_g2affine_t*) g2a; return; }
     bls::AffinePair* a = static_cast<bls::AffinePair*>(arr);
     a[i].g1 = static_cast<const G1Affine*>(g1a); a[i].g2 = static_cast<const G2Affine*>(g2a);
 }
-void jv_ppair_set(void* arr, size_t i, const void* g1a, const void* g2p) {
+void jv_ppair_set(int view, void* arr, size_t i, const void* g1a, const void* g2p) {
+    if (view == 0) { embedded_pairing_bls12_381_prepared_pair_t* a = static_cast<embedded_pairing_bls12_381_prepared_pair_t*>(arr); a[i].g1 = (embedded_pairing_bls12_381_g1affine_t*) g1a; a[i].g2 = (embedded_pairing_bls12_381_g2prepared_t*) g2p; return; }
     bls::PreparedPair* a = static_cast<bls::PreparedPair*>(arr);
     a[i].g1 = static_cast<const G1Affine*>(g1a); a[i].g2 = static_cast<const G2Prepared*>(g2p);
 }
